@@ -1,7 +1,7 @@
 //! C13 — linear-code proofs carry the column openings their security level needs.
 use crate::mirror::{convert, MLinCommitment, MLinProof};
 use crate::oracle::merkle_root_from_path;
-use crate::rt::{attempt, Ctx};
+use crate::rt::{attempt, Ctx, Out};
 use crate::scen::*;
 use crate::schemes::*;
 use ark_ff::{PrimeField, UniformRand, Zero};
@@ -197,6 +197,46 @@ where
         auth &= root == cm.root && col.len() == cm.metadata.n_rows;
     }
     ctx.check(auth, "columns-authenticated", "open", d.clone(), || json!({}));
+    // verifier side of the same requirement: every one of the t columns must be authenticated, also the later copy
+    // of a position the transcript opens twice. That copy is shifted inside the kernel of the verifier's linear tests
+    // (so only the Merkle check can notice) and its path is left alone.
+    {
+        let pos: Vec<usize> = pr.opening.paths.iter().map(|p| p.leaf_index).collect();
+        let dup = (0..pos.len()).find(|&j2| pos[..j2].contains(&pos[j2]));
+        let (_, bvec) = L::tensor(&z, cm.metadata.n_cols, cm.metadata.n_rows);
+        let fes = sp.squeezed_fes();
+        let rvec: Option<Vec<LFr>> = if ck.check_well_formedness() { Some(fes.iter().take(cm.metadata.n_rows).cloned().collect()) } else { None };
+        let usable = rvec.as_ref().map(|r| r.len() == cm.metadata.n_rows).unwrap_or(true);
+        match (dup, if usable { super::c10::kernel_vector(&bvec, rvec.as_deref(), rng) } else { None }) {
+            (Some(j2), Some(delta)) => {
+                let mut forged = pr.clone();
+                for (x, dl) in forged.opening.columns[j2].iter_mut().zip(&delta) {
+                    *x += *dl;
+                }
+                let enc: Result<BatchProofOf<S>, String> = convert(&vec![vec![forged]]);
+                match enc {
+                    Err(_) => ctx.skipped("duplicate-position-authenticated", "forged proof could not be encoded"),
+                    Ok(bp2) => {
+                        let mut ps: Vec<ProofOf<S>> = bp2.into();
+                        let value = p.evaluate(&z);
+                        let refs: Vec<&LComm<S>> = c.comms.iter().collect();
+                        let honest = check::<S>(&ck, &refs, &z, &[value], &proof, &mut crate::probe::sponge::<LFr>(b"c13"), 1);
+                        let o = check::<S>(&ck, &refs, &z, &[value], &ps.remove(0), &mut crate::probe::sponge::<LFr>(b"c13"), 1);
+                        let mut dj = d.clone();
+                        dj["repeated_position"] = json!(pos[j2]);
+                        dj["copy"] = json!(j2);
+                        if honest != Out::Accept {
+                            ctx.violated("honest-pipeline-refused", "check", dj, json!({"outcome": honest.json()}));
+                        } else {
+                            ctx.check(!o.is_accept(), "duplicate-position-authenticated", "check", dj, || json!({"outcome": o.json(), "columns_of_the_committed_matrix": t - 1, "required": t}));
+                        }
+                    }
+                }
+            }
+            (None, _) => ctx.skipped("duplicate-position-authenticated", "no position is opened twice"),
+            _ => ctx.skipped("duplicate-position-authenticated", "the verifier's linear tests leave no room (two rows with well-formedness)"),
+        }
+    }
     // encode: linear, declared length
     let m = cm.metadata.n_cols;
     let x: Vec<LFr> = (0..m).map(|_| LFr::rand(rng)).collect();
